@@ -43,7 +43,7 @@ from vf.gen import species as S
 from vf.ref import poly, quad
 
 ID = 'C02'
-N = {'quick': 5500, 'thorough': 150000}
+N = {'quick': 4200, 'thorough': 150000}
 NT_RULE = ('case = one NASA-7 / NASA-9 (1-4 segments, optionally with a gap) / Shomate (every unit '
            'accepted by constants.R) species with arbitrary or realistic coefficients drawn per case '
            'index from a seeded PRNG after a list of directed cases, plus explicit scalar (float, int), '
